@@ -397,6 +397,24 @@ fn run<H: HashChain>(op: &str, a: &Args) -> Option<String> {
                 None => "none".to_string(),
             }
         }
+        "auxshape" => {
+            let t = a.num("lms")? as u32;
+            let len = a.num("len")? as usize;
+            match vh::aux_fresh_shape::<H>(t, len) {
+                None => "none".to_string(),
+                Some((alen, level, layers, mac)) => format!(
+                    "ok len={} level={} layers={} mac={}",
+                    alen,
+                    level,
+                    if layers.is_empty() {
+                        "-".to_string()
+                    } else {
+                        layers.iter().map(|(l, n)| format!("{}:{}", l, n)).collect::<Vec<_>>().join(",")
+                    },
+                    mac
+                ),
+            }
+        }
         "zeroize" => zeroize_probe::run::<H>(a.s("type")?)?,
         #[cfg(feature = "fast_verify")]
         "fveval" => {
